@@ -2990,6 +2990,8 @@ class Run:
                     if r["kind"] == "m2o":
                         ok, want = self.expected_fk(o, an)
                         tgt = OS.loaded(o, an)[1]
+                        if ok and tgt is not None and type(tgt).__name__ == "K" and OS.loaded(tgt, "name")[0]:
+                            want = OS.loaded(tgt, "name")[1]        # a pending rename of the natural key travels to the referring rows
                         if ok and not (tgt is not None and (tgt in sess.deleted or id(tgt) in doomed)):
                             vals[r["fk"][1]] = want
                         del tgt
